@@ -711,6 +711,14 @@ NOISE_CFGS = [{"kind": "exact"}, {"kind": "sys", "lead_in": "3/1", "k": "2/1"},
               {"kind": "sys", "lead_in": "7/1", "k": "1/1", "shift": "2/1", "taps": ["1/1", "-1/1"]}]
 
 _G8 = {"t0": "0/1", "dt": "1/1", "n": 8}
+_D8 = {"t0": "0/1", "dt": "1/10", "n": 8}
+_D8b = {"t0": "1/10", "dt": "1/10", "n": 8}
+NOISE_FIXED_DECIMAL = [
+    ({"kind": "sys", "lead_in": L, "k": "1/1"},
+     [["noise", _D8], ["full", _D8], ["noise", _D8b], ["full", _D8b],
+      ["recv", {"t0": "1/5", "dt": "1/10", "n": 5, "vals": ["0/1", "3/1", "-2/1", "1/1", "0/1"]}],
+      ["full", _D8], ["noise", _D8], ["all"], ["full", _D8b], ["clear", True], ["noise", _D8]])
+    for L in ("2/5", "3/5", "4/5", "9/10", "1/1")]
 NOISE_FIXED = [
     ({"kind": "sys", "lead_in": "6/1", "k": "2/1", "taps": ["0/1", "0/1", "0/1", "1/1"]},
      [["noise", _G8], ["noise", {"t0": "4/1", "dt": "1/1", "n": 8}],
@@ -727,7 +735,20 @@ NOISE_FIXED = [
      [["noise", _G8], ["clear", True], ["noise", _G8], ["clear", False], ["full", _G8], ["clear", True], ["clear", False],
       ["full", _G8], ["recv", {"t0": "2/1", "dt": "1/1", "n": 4, "vals": ["0/1", "5/1", "-3/1", "0/1"]}], ["wf"],
       ["clear", True], ["noise", _G8]]),
-]
+] + NOISE_FIXED_DECIMAL
+
+
+def scale_times(hist, f):
+    """the same history on a time axis multiplied by f"""
+    out = []
+    for op in hist:
+        op2 = []
+        for x in op:
+            if isinstance(x, dict) and "t0" in x:
+                x = dict(x, t0=fs(Fr(x["t0"]) * f), dt=fs(Fr(x["dt"]) * f))
+            op2.append(x)
+        out.append(op2)
+    return out
 
 
 def noise_model_expr(cfg, hist):
@@ -758,6 +779,12 @@ def noise_probe(ctx, n_hist):
             cfg = rng.choice(NOISE_CFGS)
             hist = rand_history(rng, cfg, max_ops=25, noise=True)
             seed = rng.randrange(2**31)
+            if cfg["kind"] == "sys" and not cfg.get("taps") and not cfg.get("shift") and rng.random() < 0.6:
+                # decimal (non-dyadic) time axis: every time and step divided by 10 (dt = 0.025 .. 0.2) and a decimal
+                # lead_in_time, so that buffer/dt quotients land on and next to exact integers in floating point;
+                # identity / gain front ends only (their oracle does not depend on the number of lead-in samples)
+                cfg = dict(cfg, lead_in=fs(Fr(rng.choice([0, 3, 4, 6, 7, 8, 9, 10, 12, 25]), 10)))
+                hist = scale_times(hist, Fr(1, 10))
         bad, trace = noise_run(cfg, hist, seed)
         ctx.case(key=("noise", json.dumps(cfg, sort_keys=True), json.dumps(hist)),
                  nontrivial=bad is not None or any(op[0] in ("noise", "full", "all", "wf") for op in hist),
